@@ -207,7 +207,18 @@ NonPositive = adjective_condition(lambda v: v <= 0, 'non-positive')
 """`Condition` indicating value must be non-positive"""
 NonNegative = adjective_condition(lambda v: v >= 0, 'non-negative')
 """`Condition` indicating value must be non-negative"""
-Finite = adjective_condition(math.isfinite, 'finite')
+def _is_finite(v: t.Any) -> bool:
+    if isinstance(v, int):
+        return True  # also when too large for a float (where `math.isfinite` raises OverflowError)
+    if hasattr(v, 'is_finite'):
+        return v.is_finite()  # Decimal (which may be finite, but beyond the range of floats)
+    try:
+        return math.isfinite(v)
+    except OverflowError:
+        return True  # a (rational) number too large for a float
+
+
+Finite = adjective_condition(_is_finite, 'finite')
 """`Condition` indicating value must be finite"""
 Empty = adjective_condition(lambda v: len(v) == 0, 'empty')
 """`Condition` indicating value must be empty (have no elements)"""
